@@ -57,10 +57,22 @@ func (p *Paragraph) Set(key, value string) {
 
 func (p *Paragraph) WriteTo(out io.Writer) error {
 	for _, key := range p.Order {
-		value := p.Values[key]
+		lines := strings.Split(p.Values[key], "\n")
+		/* A trailing newline ends the last line; it does not start
+		 * another (empty) one. */
+		if n := len(lines); n > 1 && lines[n-1] == "" {
+			lines = lines[:n-1]
+		}
 
-		value = strings.Replace(value, "\n", "\n ", -1)
-		value = strings.Replace(value, "\n \n", "\n .\n", -1)
+		/* Fold line by line: every continuation line gets its leading
+		 * space, and an empty line is written as " .". */
+		value := lines[0]
+		for _, line := range lines[1:] {
+			if line == "" {
+				line = "."
+			}
+			value += "\n " + line
+		}
 
 		if _, err := out.Write(
 			[]byte(fmt.Sprintf("%s: %s\n", key, value)),
